@@ -113,6 +113,14 @@ DAMAGE = [
     cell('damage_packid', 'harness.h_damage', 'damage_packid', (200, 600), bounds=B_DAMAGE + '; pack_id of a row perturbed', samples=[dict(S_DAMAGE, a=1)]),
     cell('damage_reach', 'harness.h_damage', 'damage_reach', (120, 300), bounds=B_DAMAGE, expect='REFUTED'),
 ]
+DUPS = [
+    cell('dups_delete', 'harness.h_delete', 'dups_delete', (300, 900), bounds='stray duplicates/<key>.<tag> files (two for a loose object, one for a packed one); delete_objects of any subset removes exactly the duplicates of the deleted keys; sizes in [1,70000]',
+         samples=[dict(s0=66000, s2=5, d0=True, d2=False, good=True), dict(s0=5, s2=7, d0=False, d2=True, good=False)]),
+    cell('dups_clean', 'harness.h_delete', 'dups_clean', (300, 900), bounds='clean_storage with stray duplicates: removed when the object is intact, a damaged loose object is repaired from a good duplicate, InconsistentContent (nothing lost) when all are corrupt',
+         samples=[dict(s0=66000, s2=5, damaged=True, good=True), dict(s0=5, s2=7, damaged=True, good=False), dict(s0=5, s2=7, damaged=False, good=False)]),
+]
+PAGING = [cell('paging', 'harness.h_cfg', 'paging', (400, 1200), bounds='the two primary-key paging loops (list_all_objects; known-keys scan of no_holes) with the literal page size 1000 replaced by a symbolic 1..3 through a checked source rewrite (vf/world.py paged): 4 packed + 1 loose object',
+               samples=[dict(page=1, s0=5, nh=True), dict(page=3, s0=5, nh=False)])]
 DELETE_REACH = [cell('delete_reach', 'harness.h_delete', 'delete_reach', (120, 300), bounds=B_DELETE, expect='REFUTED')]
 
 
@@ -181,10 +189,11 @@ SHOULD = [
     cell('should_modes', 'harness.h_comp', 'should_modes', (300, 900), bounds='YES/NO/KEEP; length,size in [0,300000]; stream position symbolic',
          samples=[dict(mode=2, source_compressed=True, length=50, size=100, spos=3, zs=20, z=30)]),
 ] + [
-    cell('should_auto_packed_%d' % size, 'harness.h_comp', 'should_auto_packed_%d' % size, (300, 900),
-         bounds='AUTO on a compressed source of size %d (literal: the ratio test divides by it), stored length symbolic: decision = length/size < 0.9 (size 0: never)' % size,
-         samples=[dict(length=size * 9 // 10, spos=0, zs=20, z=30), dict(length=size, spos=size, zs=20, z=30)])
-    for size in (0, 1, 10, 1000, 299999)
+    cell('should_auto_packed_%d_%d' % (size, length), 'harness.h_comp', 'should_auto_packed_%d_%d' % (size, length), (300, 900),
+         bounds='AUTO on a compressed source of size %d stored in %d bytes (both literal: the ratio test is a float division): decision = length/size < 0.9 (size 0: never); stream position symbolic' % (size, length),
+         samples=[dict(spos=0, zs=20, z=30), dict(spos=size, zs=20, z=30)])
+    for size, length in ((0, 0), (0, 5), (1, 0), (1, 1), (10, 8), (10, 9), (10, 10), (1000, 0), (1000, 899), (1000, 900), (1000, 901),
+                         (1000, 1200), (299999, 269999), (299999, 270000))
 ] + [
     cell('should_auto_plain_%d' % size, 'harness.h_comp', 'should_auto_plain_%d' % size, (400, 900),
          bounds='AUTO on an uncompressed source of size %d (literal), symbolic stream position, sample compressing to 10 or to 400000 bytes: position restored' % size,
@@ -243,11 +252,11 @@ F_READ = [
 
 CPACK_YES = [c for c in CPACK if c['name'].startswith(('cpack_check_yes', 'cpack_check_auto300'))]
 DELETE_CHUNKS = [
-    cell('delete_chunks', 'harness.h_delete', 'delete_chunks', (500, 1500), bounds=B_DELETE + '; _IN_SQL_MAX_LENGTH in [1,3]; obj2/obj3 compressed or plain',
-         samples=[dict(h0=2, s0=66000, s2=300, d0=True, d1=True, d2=False, d3=True, dabs=True, in_max=1, z2=True, z3=False, zl=30),
-                  dict(h0=0, s0=5, s2=9, d0=False, d1=False, d2=True, d3=False, dabs=False, in_max=2, z2=False, z3=True, zl=5)]),
+    cell('delete_chunks', 'harness.h_delete', 'delete_chunks', (500, 1500), bounds=B_DELETE + '; _IN_SQL_MAX_LENGTH in [1,3]; obj2 stored compressed (5 bytes), obj3 plain; absent key always requested',
+         samples=[dict(s0=66000, s2=300, d0=True, d1=True, d2=False, d3=True, in_max=1),
+                  dict(s0=5, s2=9, d0=False, d1=False, d2=True, d3=False, in_max=2)]),
     cell('delete_repack_pack', 'harness.h_delete', 'delete_repack_pack', (500, 1500), bounds=B_DELETE + '; as delete_chunks, then repack_pack(0) alone and a NEW handle',
-         samples=[dict(h0=2, s0=66000, s2=300, d0=True, d1=True, d2=False, d3=True, dabs=True, in_max=1, z2=True, z3=False, zl=30)]),
+         samples=[dict(s0=66000, s2=300, d0=True, d1=True, d2=False, d3=True, in_max=1)]),
 ]
 IMPORT_FORMS = [c for c in IMPORT if c['name'].startswith('imp_forms_')]
 IMPORT_DEDUP = [c for c in IMPORT if c['name'].startswith(('imp_target_', 'imp_kind_s256_s256_list_nocb', 'imp_kind_s1_s256_list_nocb'))]
@@ -259,9 +268,10 @@ CFG = [cell('cfg_%s_p%d' % (ht, pl), 'harness.h_cfg', 'cfg_%s_p%d' % (ht, pl), (
             bounds='hash_type=%s, loose_prefix_len=%d: add loose (bytes and stream), pack_all_loose, direct to pack, read back through every view; sizes in [0|1,70000]' % (ht, pl),
             samples=[dict(s0=0, s1=66000, s2=5), dict(s0=7, s1=3, s2=66000)])
        for ht in ('sha1', 'sha256') for pl in (0, 1, 2, 3)]
-PACKID = [cell('packid_spec', 'harness.h_cfg', 'packid_spec', (400, 1200),
-               bounds='_get_pack_id_to_write_to: 0..3 existing packs of sizes in [0,1000], target in [1,1000], cached id None or <= first non-full pack, one known_sizes entry',
-               samples=[dict(n0=10, n1=3, n2=9, e=3, target=5, cached=0, known=1, kv=7), dict(n0=10, n1=30, n2=9, e=2, target=5, cached=-1, known=-1, kv=0)])]
+PACKID = [cell('packid_e%d_k%s' % (e, k), 'harness.h_cfg', 'packid_e%d_k%s' % (e, k), (400, 1200),
+               bounds='_get_pack_id_to_write_to: %d existing packs of sizes in [0,1000], target in [1,1000], cached id enumerated over None, 0..3 (states with a cached id above the first non-full pack are skipped), known_sizes %s' % (e, 'absent' if k == 'n' else 'for the last pack'),
+               samples=[dict(n0=10, n1=3, n2=9, target=5, kv=7), dict(n0=10, n1=30, n2=9, target=5, kv=0)])
+          for e, k in ((0, 'n'), (1, 'n'), (1, '0'), (2, 'n'), (2, '1'), (3, 'n'), (3, '2'))]
 BULK_PACK = [cell('bulk_pack', 'harness.h_cfg', 'bulk_pack', (400, 1200),
                   bounds='pack_all_loose + clean_storage with _IN_SQL_MAX_LENGTH in [1,2] and _MAX_CHUNK_ITERATE_LENGTH in [0,3] (both lookup strategies), sizes in [1,1000]',
                   samples=[dict(s0=5, s1=7, s2=9, in_max=1, chunk_max=0, clean=True), dict(s0=5, s1=7, s2=9, in_max=2, chunk_max=3, clean=False)])]
@@ -279,7 +289,7 @@ CHECKS = {
                      A_COMP],
     ),
     'C02': dict(
-        cells=PACK_VIEWS + PACK_VALIDATE + DIRECT_VIEWS + LOOSE_VIEWS + PACK_REACH + DELETE_CHUNKS + CREPACK + IMPORT_FORMS + INIT,
+        cells=PACK_VIEWS + PACK_VALIDATE + DIRECT_VIEWS + LOOSE_VIEWS + PACK_REACH + DELETE_CHUNKS + CREPACK + IMPORT_FORMS + INIT + DUPS,
         functions=F_WRITE + F_READ + ['Container.delete_objects', 'Container.repack', 'Container.repack_pack',
                                       'Container.import_objects', 'Container.init_container'],
         assumptions=['one inductive step per operation from a symbolic pre-state (a pack with holes and packed objects, '
@@ -343,8 +353,9 @@ CHECKS = {
                      'pack_all_loose(+clean_storage) with/without clean_loose_per_pack, direct to pack with/without '
                      'no_holes, add loose, delete, repack (hole + 2 packed objects), import_objects from a second container '
                      '(one loose + one packed source object, in-memory cache branch), pack_all_loose / direct to pack with '
-                     'do_fsync=False; oracle on the raw image (index rows + byte slices, pack -1 included); the read-back '
-                     'through a fresh handle on the image is not part of these cells'],
+                     'do_fsync=False; oracle on the raw image (index rows + byte slices, pack -1 included) and, for the kill images, a '
+                     'NEW handle mounted on the image: right bytes for every object stored before, right bytes or NotExistent for '
+                     'objects being added, a loud failure allowed only after an interrupted repack'],
     ),
     'C06': dict(
         cells=crash_cells('power', ALL_OPS) + monitor_cells(ALL_OPS),
@@ -376,8 +387,12 @@ CHECKS = {
                  samples=[dict(n=100, total=40, before=1, pos=10, c=20, u=0, t=5, tape=[30, 10, 5])]),
             cell('zseek_fwd', 'harness.h_zread', 'zseek_fwd', (540, 1500), bounds='n <= 200000; symbolic stream state; seek(t,0) with pos <= t <= n+10, stream invariant afterwards; tape <= 5', replay_mode='model',
                  samples=[dict(n=100, total=40, before=1, pos=10, c=20, u=0, t=50, tape=[30, 20, 40])]),
-            cell('zseek_rel_back', 'harness.h_zread', 'zseek_rel_back', (540, 1500), bounds='n <= 200000; symbolic stream state; seek(t,1) with t < 0, stream invariant afterwards; tape <= 5', replay_mode='model',
+            cell('zseek_rel_back', 'harness.h_zread', 'zseek_rel_back', (540, 1500), bounds='n <= 200000; symbolic stream state; seek(t,1) with t < 0 and 0 < pos+t, stream invariant afterwards; tape <= 5', replay_mode='model',
                  samples=[dict(n=100, total=40, before=1, pos=10, c=20, u=0, t=-5, tape=[30, 10, 5])]),
+            cell('zseek_rel_zero', 'harness.h_zread', 'zseek_rel_zero', (540, 1500), bounds=B_ZREAD + '; seek(t,1) with pos+t == 0 (rewind) then read(a), a <= 600000', replay_mode='model',
+                 samples=[dict(n=100, total=40, before=1, pos=10, c=20, u=0, t=-10, a=7, tape=[30, 10, 7])]),
+            cell('zseek_rel_neg', 'harness.h_zread', 'zseek_rel_neg', (300, 900), bounds=B_ZREAD + '; seek(t,1) with pos+t < 0: rejected, position unchanged', replay_mode='model',
+                 samples=[dict(n=100, total=40, before=1, pos=10, c=20, u=0, t=-12, tape=[30])]),
             cell('zseek_rel_fwd', 'harness.h_zread', 'zseek_rel_fwd', (540, 1500), bounds='n <= 200000; symbolic stream state; seek(t,1) with t >= 0, stream invariant afterwards; tape <= 5', replay_mode='model',
                  samples=[dict(n=100, total=40, before=1, pos=10, c=20, u=0, t=40, tape=[30, 20, 40])]),
             cell('zseek_far', 'harness.h_zread', 'zseek_far', (540, 1500), bounds='n in [262000,600000]; initial stream state; seek(t,0) across the 256 KiB step of _seek_internal, stream invariant afterwards; tape <= 6', replay_mode='model',
@@ -402,11 +417,18 @@ CHECKS = {
                  samples=[dict(sp=5, s0=7, s1=9, q1=1, pack=True, clean=True, q2=3),
                           dict(sp=5, s0=7, s1=9, q1=2, pack=True, clean=False, q2=1)]),
             cell('handles_reach', 'harness.h_handles', 'handles_reach', (120, 300), bounds=B_HANDLES, expect='REFUTED'),
+            cell('handles3', 'harness.h_handles', 'handles3', (500, 1500),
+                 bounds='three handles: H queries (q1 in {has, get, meta, list, single get, none}), A adds, B may pack/clean, H queries '
+                 '(q2), A adds, B may pack (with/without per-pack cleaning)/clean, H itself adds, H queries (q3); sizes in [1,70000]',
+                 samples=[dict(sp=66000, s0=5, q1=3, q2=0, q3=3, pack1=True, clean1=True, pack2=True, clean2=True),
+                          dict(sp=5, s0=66000, q1=5, q2=4, q3=1, pack1=False, clean1=False, pack2=True, clean2=False)]),
         ],
         functions=F_READ + ['Container.add_streamed_object', 'Container.pack_all_loose', 'Container.clean_storage',
                             'Container._close_operation_session'],
-        assumptions=['two handles, one history shape: [query1 on H] add, [pack], [clean], add through the other handle, '
-                     'query2 on H; SQLite WAL snapshot isolation modelled by pinned committed versions'],
+        assumptions=['`handles`: two handles, history [query1 on H] add, [pack], [clean], add through the other handle, query2 on H; '
+                     '`handles3`: three handles (reader H, loose writer A, packer B), three queries of H with adds/packs/cleans in '
+                     'between and an add through H itself; SQLite WAL snapshot isolation modelled by pinned committed versions; '
+                     'longer histories are not explored'],
     ),
     'C09': dict(
         cells=DIRECT_INV + LOOSE_INV + DIRECT_REACH + CDIRECT + IMPORT_DEDUP,
@@ -426,12 +448,12 @@ CHECKS = {
                      'cells bounded to objects <= 2500 bytes (3 sampling iterations)'],
     ),
     'C11': dict(
-        cells=DELETE_REPACK + DELETE_VIEWS + DELETE_REACH + DELETE_CHUNKS,
+        cells=DELETE_REPACK + DELETE_VIEWS + DELETE_REACH + DELETE_CHUNKS + DUPS,
         functions=['Container.delete_objects', 'Container.repack', 'Container.repack_pack', 'utils.should_compress (KEEP)']
         + F_READ,
         assumptions=['repack with the default CompressMode.KEEP; compressed and plain packed objects; the request split into '
                      'SQL IN-chunks of 1..3 keys (symbolic _IN_SQL_MAX_LENGTH); repack_pack on its own + new handle; stray '
-                     'duplicates/ files not covered'],
+                     'duplicates/ files of loose and packed objects (delete_objects, clean_storage)'],
     ),
     'C12': dict(
         cells=PACK_VALIDATE + DELETE_REPACK + DAMAGE + CPACK_YES + CREPACK,
@@ -523,7 +545,7 @@ CHECKS = {
                  samples=[dict(s0=5, s1=7, s2=9, r0=3, r1=1, r2=1, nreq=2, in_max=1, chunk_max=1),
                           dict(s0=5, s1=7, s2=9, r0=0, r1=2, r2=3, nreq=2, in_max=2, chunk_max=2)])
             for v in range(4) for sfx in ('', '_3')
-        ] + [cell('bulk_reach_v1', 'harness.g_bulk', 'bulk_reach_v1', (120, 300), expect='REFUTED')] + BULK_PACK
+        ] + [cell('bulk_reach_v1', 'harness.g_bulk', 'bulk_reach_v1', (120, 300), expect='REFUTED')] + BULK_PACK + PAGING
         + [c for c in IMPORT if c['name'].startswith(('imp_kind_s256_s256_', 'imp_kind_s256_s1_list', 'imp_kind_s256_s1_set'))],
         functions=['utils.detect_where_sorted', 'utils.merge_sorted', 'utils.chunk_iterator',
                    'Container._get_objects_stream_meta_generator (both lookup strategies)', 'Container.has_objects',
@@ -531,7 +553,7 @@ CHECKS = {
         assumptions=['helper clause: pure functions, model and real world coincide (replay = the same call); bulk clause: the '
                      'two strategy thresholds are symbolic small integers set on the container instance (views, pack_all_loose, '
                      'clean_storage); bulk import: request order, repeats, absent keys and iterable kind (imp_kind_* cells); '
-                     'the 1000-row paging literal is not parametrised'],
+                     'the 1000-row paging literal is replaced by a symbolic page size of 1..3 through a checked source rewrite (cell paging)'],
     ),
     'C17': dict(
         cells=crash_cells('fault', ALL_OPS),
